@@ -49,6 +49,19 @@ fn pick_op(lo: u8, hi: u8) -> (u8, usize) {
     (op, arg)
 }
 
+/// `one_op` with the operation resolved to a constant in every branch, so that symbolic
+/// execution only enters the arms of the group [lo, hi].
+fn one_op_in(bs: &mut Bitstream<'_>, lo: u8, hi: u8, op: u8, arg: usize) -> (u8, u64) {
+    let mut k = lo;
+    while k <= hi {
+        if op == k {
+            return one_op(bs, k, arg);
+        }
+        k += 1;
+    }
+    (1, 0)
+}
+
 /// State family: a reader over `len <= 16` symbolic bytes after `read_bits(lead)`, lead 0..=32;
 /// then one arbitrary operation from the group [lo, hi].
 fn bits_total(lo: u8, hi: u8, with_lead: bool) {
@@ -61,7 +74,7 @@ fn bits_total(lo: u8, hi: u8, with_lead: bool) {
         core::mem::forget(r);
     }
     let (op, arg) = pick_op(lo, hi);
-    let (k, _) = one_op(&mut bs, op, arg);
+    let (k, _) = one_op_in(&mut bs, lo, hi, op, arg);
     kani::cover!(k == 2, "op succeeded");
     kani::cover!(k == 0, "eof reported");
     assert!(bs.num_read_bits() <= len * 8);
@@ -127,8 +140,8 @@ fn bits_prefix(lo: u8, hi: u8, with_lead: bool) {
     let mut i = if with_lead { 0 } else { 1 };
     while i < 2 {
         let (op, arg) = if i == 0 { (0u8, lead) } else { pick_op(lo, hi) };
-        let (kf, vf) = one_op(&mut full, op, arg);
-        let (kp, vp) = one_op(&mut pre, op, arg);
+        let (kf, vf) = if i == 0 { one_op(&mut full, 0, arg) } else { one_op_in(&mut full, lo, hi, op, arg) };
+        let (kp, vp) = if i == 0 { one_op(&mut pre, 0, arg) } else { one_op_in(&mut pre, lo, hi, op, arg) };
         if kp == 0 {
             kani::cover!(kf == 2 && i == 1, "prefix EOF where full succeeds");
             return;
